@@ -307,8 +307,6 @@ theorem clean_of_last_ascii (d : Bytes) (h : d = [] ∨ ∃ b, d.getLast? = some
     have e : d.length - 1 + 1 = d.length := by omega
     rwa [e] at this
 
-/-- the unfixed code read `3 * runeOffsetFrequency` bytes: after 75 four-byte runes the window is exhausted and the walk
-    stops advancing (the defect found by this check, fixed in the repository): `advance_take` needs its factor 4 -/
 /-! non-vacuity of `findOffset_exact`: "aé\n" and "b" -/
 example : findOffset (Posting.ofDocs [[97, 0xC3, 0xA9, 10], [98]]) false (some (readLen 4)) 0 2 = 3 := by
   have h := findOffset_exact [[97, 0xC3, 0xA9, 10], [98]]
@@ -321,6 +319,8 @@ example : findOffset (Posting.ofDocs [[97, 0xC3, 0xA9, 10], [98]]) false (some (
     0 2 (by decide) (by decide) (some (readLen 4)) (by intro n hn; cases hn; decide)
   rw [h]; decide
 
+/-- the unfixed code read `3 * runeOffsetFrequency` bytes: after 75 four-byte runes the window is exhausted and the walk
+    stops advancing (the defect found by this check, fixed in the repository): `advance_take` needs its factor 4 -/
 def fourByteRun : Bytes := (List.replicate 76 [0xF0, 0x9F, 0x98, 0x80]).flatten ++ [97]
 theorem walk_needs_four_bytes_per_rune :
     advance 76 (fourByteRun.take (readLen 3)) = 300 ∧ advance 76 fourByteRun = 304 := by
